@@ -23,31 +23,38 @@ func (r *Reader) readIinf(b *box) (err error) {
 	return b.close()
 }
 
-func (r *Reader) readInfe(b *box) (err error) {
-	buf, err := b.Peek(b.remain)
-	if err != nil {
-		return
-	}
-	offset := b.offset + int(b.size) - b.remain
+// infeWindow is how much of an item-info entry is looked at: the fixed fields
+// and the content type of a mime item.
+const infeWindow = 256
 
-	for i := 0; i < len(buf); {
+func (r *Reader) readInfe(b *box) (err error) {
+	// The entries are read one at a time: the box may be larger than the buffer.
+	for b.remain >= 12 {
 		infeFastHeaderSize := 21
 
 		var contentType imagetype.ImageType
-		if i+12 > len(buf) {
-			break
+		n := b.remain
+		if n > infeWindow {
+			n = infeWindow
 		}
-		size := int(bmffEndian.Uint32(buf[i : i+4]))
+		buf, err := b.Peek(n)
+		if err != nil {
+			return err
+		}
+		offset := b.offset + int(b.size) - b.remain
+		size := int(bmffEndian.Uint32(buf[:4]))
 		// an entry is at least a full box header and must lie inside the iinf box,
-		// otherwise the loop would not advance or would index outside buf
-		if size < 12 || size > len(buf)-i {
+		// otherwise the loop would not advance or would read outside the box
+		if size < 12 || size > b.remain {
 			break
 		}
-		boxType := boxTypeFromBuf(buf[i+4 : i+8])
-		flags := flags(bmffEndian.Uint32(buf[i+8 : i+12]))
+		boxType := boxTypeFromBuf(buf[4:8])
+		flags := flags(bmffEndian.Uint32(buf[8:12]))
 
 		if boxType != typeInfe {
-			i += size
+			if _, err = b.Discard(size); err != nil {
+				return err
+			}
 			continue
 		}
 		// Only support Infe version 2
@@ -55,42 +62,47 @@ func (r *Reader) readInfe(b *box) (err error) {
 			if logLevelError() {
 				logError().Object("box", b).Err(errors.Wrapf(ErrInfeVersionNotSupported, "found version %d infe box. Only 2 is supported now", flags.version())).Send()
 			}
-			i += size
+			if _, err = b.Discard(size); err != nil {
+				return err
+			}
 			continue
 		}
 
 		if size < infeFastHeaderSize {
-			i += size
+			if _, err = b.Discard(size); err != nil {
+				return err
+			}
 			continue
 		}
-		itemID := itemID(bmffEndian.Uint16(buf[i+12 : i+14]))
-		itemType := itemTypeFromBuf(buf[i+16 : i+20])
+		itemID := itemID(bmffEndian.Uint16(buf[12:14]))
+		itemType := itemTypeFromBuf(buf[16:20])
 		// expect whitespace
-		if buf[i+20] != '\x00' {
+		if buf[20] != '\x00' {
 			if logLevelDebug() {
-				logDebug().Object("box", b).Str("itemType", string(buf[i+16:i+20])).Uint16("itemID", uint16(itemID)).Msg("does't end on whitespace")
+				logDebug().Object("box", b).Str("itemType", string(buf[16:20])).Uint16("itemID", uint16(itemID)).Msg("does't end on whitespace")
 			}
 			infeFastHeaderSize--
 		}
 		switch itemType {
 		case itemTypeMime:
-			if size-1 >= infeFastHeaderSize {
-				contentType = imagetype.FromString(string(buf[i+infeFastHeaderSize : i+size-1]))
+			if size-1 >= infeFastHeaderSize && size <= len(buf) {
+				contentType = imagetype.FromString(string(buf[infeFastHeaderSize : size-1]))
 			}
 			r.heic.xml.id = itemID
 		case itemTypeExif:
 			r.heic.exif.id = itemID
 		}
 		if logLevelDebug() {
-			protectionIndex := bmffEndian.Uint16(buf[i+14 : i+16])
-			ev := logDebug().Str("BoxType", boxType.String()).Object("flags", flags).Uint16("itemID", uint16(itemID)).Str("itemType", string(buf[i+16:i+20])).Int("offset", i+offset).Int("size", size).Uint16("idx", protectionIndex)
+			protectionIndex := bmffEndian.Uint16(buf[14:16])
+			ev := logDebug().Str("BoxType", boxType.String()).Object("flags", flags).Uint16("itemID", uint16(itemID)).Str("itemType", string(buf[16:20])).Int("offset", offset).Int("size", size).Uint16("idx", protectionIndex)
 			if itemType == itemTypeMime {
 				ev.Str("contentType", contentType.String())
 			}
 			ev.Send()
 		}
-		i += size
-
+		if _, err = b.Discard(size); err != nil {
+			return err
+		}
 	}
 	return b.close()
 }
